@@ -1,5 +1,165 @@
-"""Ties of the Coq models of C06 to the compiled code (filled in below)."""
+"""Ties of the Coq models of C06 to the compiled code.
+
+T1  print_value (coq/Files/NumFmtModel.v) vs the static print_value of vnadata_save.c
+    (harness/datafiles_num.c): same bytes for a table of doubles x precisions x plus/pad, the model
+    being given glibc's %.*e digit string.
+T2  saver_fields / loader_fields (coq/Files/NpdScan.v) vs the number of fields on the data lines
+    vnadata_fsave writes and vnadata_fload accepts.
+T3  cksave (coq/Files/SaveModel.v) vs the return value of vnadata_cksave on the C06 configurations.
+"""
+import re
+
+import vplib
+import datafiles as D
+
+PT = {"UNDEF": "PUNDEF", "S": "PS", "T": "PT", "U": "PU", "Z": "PZ", "Y": "PY", "H": "PH", "G": "PG", "A": "PA",
+      "B": "PB", "ZIN": "PZIN"}
 
 
-def run(ctx, H, broken):
-    pass
+def coq_list(xs):
+    return "[" + "; ".join(xs) + "]"
+
+
+def entry_term(e):
+    """Format specifier (one list entry, as vnadata_set_format reads it) -> Coq entry term, or None."""
+    u = e.strip().upper()
+    if u in ("IL", "RL", "VSWR"):
+        return "Build_entry PS %s" % u
+    if u in ("PRC", "PRL", "SRC", "SRL"):
+        return "Build_entry PZIN %s" % u
+    if u in ("RI", "MA", "DB"):
+        return "Build_entry PUNDEF %s" % u
+    if u.startswith("ZIN"):
+        f = u[3:] or "RI"
+        return "Build_entry PZIN %s" % f if f in ("RI", "MA") else None
+    if u and u[0] in "STUZYHGAB":
+        f = u[1:] or "RI"
+        return "Build_entry %s %s" % (PT[u[0]], f) if f in ("RI", "MA", "DB") else None
+    return None
+
+
+def tie_print_value(ctx, broken):
+    exe = ctx.build_harness("datafiles_num", san=True, exclude=("vnadata_save.c",))
+    rng = ctx.rng
+    vals = [0.0, -0.0, 1.0, -1.0, 9.999999, 99.5, 999.9995, 1e-3, 123456.789, 5e-324, 1.7976931348623157e308, 0.5, 50.0,
+            1e9, 2.5e-12, 7.25e11, -3.14159e-7]
+    vals += [rng.uniform(-1, 1) * 10 ** rng.uniform(-300, 300) for _ in range(60)]
+    vals += [rng.choice([1, 9.5, 99.95, 999.5, 9.9995]) * 10 ** rng.randint(-12, 12) for _ in range(40)]
+    lines = []
+    for v in vals:
+        for p in sorted(set([1, 2, 3, rng.randint(4, 17), rng.randint(4, 17), 17])):
+            lines.append("%d %d %d %s" % (p, rng.randint(0, 1), rng.randint(0, 1), float(v).hex()))
+    rc, out, err = vplib.sh([exe], input="\n".join(lines) + "\n", timeout=120, env=ctx.run_env())
+    if rc != 0:
+        sig = vplib.asan_signature(err) or {"kind": "fault", "error": "exit %d" % rc, "function": "print_value"}
+        ctx.violation(sig, "print_value harness died: %s" % err[-300:], {"stderr": err[-2000:], "input": lines[:50]})
+        ctx.obligation("tie:print_value", False, "harness died")
+        return
+    cases = []
+    body = ["Require Import List ZArith Ascii String Bool.", "Require Import LV.Files.NumFmtModel.", "Import ListNotations.",
+            "Open Scope Z_scope.",
+            "Definition hexs (t : text) : list nat := map nat_of_ascii t."]
+    for ln, ol in zip(lines, out.strip().split("\n")):
+        m = re.match(r"^E (\S+) \|(.*)$", ol)
+        p, plus, pad, _ = ln.split()
+        etext = m.group(1)
+        cbytes = bytes(int(x, 16) for x in m.group(2).split())
+        m2 = re.match(r"^(-?)(\d)(?:\.(\d+))?e([+-]\d+)$", etext)
+        if not m2:
+            continue
+        digits = m2.group(2) + (m2.group(3) or "")
+        cases.append((ln, etext, cbytes))
+        body.append("Eval vm_compute in hexs (print_value %s %s %s %s%%nat (%s))." % (
+            "true" if plus == "1" else "false", "true" if pad == "1" else "false",
+            "true" if m2.group(1) else "false", coq_list(list(digits)), int(m2.group(4))))
+    rc, cout, cerr = ctx.coq_eval("numfmt_cases", "\n".join(body) + "\n", timeout=600)
+    if rc != 0:
+        ctx.obligation("tie:print_value", False, "model evaluation failed: " + cerr[-300:])
+        broken.append("print_value model cannot be evaluated: " + cerr[-300:])
+        return
+    blocks = re.findall(r"=\s*\[(.*?)\]\s*:\s*list nat", cout.replace("%nat", ""), flags=re.S)
+    bad = 0
+    for (ln, etext, cbytes), blk in zip(cases, blocks):
+        mb = bytes(int(x) for x in re.findall(r"\d+", blk))
+        ctx.count(("print_value", ln))
+        ctx.traces_validated += 1
+        if mb != cbytes:
+            bad += 1
+            if bad <= 3:
+                ctx.violation({"kind": "disagreement", "op": "print_value", "class": "model_vs_c"},
+                              "print_value(%s): C wrote %r, the model (given %s) writes %r" % (ln, cbytes, etext, mb),
+                              {"input": ln, "sprintf": etext, "c": cbytes.hex(), "model": mb.hex()})
+    ctx.obligation("tie:print_value", bad == 0 and len(blocks) == len(cases), "%d of %d differ" % (bad, len(cases)))
+    ctx.extra["print_value_cases"] = len(cases)
+
+
+def run(ctx, H, broken, cases=None, results=None, expected_filetype=None):
+    tie_print_value(ctx, broken)
+    if not cases:
+        return
+    # ---- T2 / T3 on the configurations of the round-trip run
+    body = ["Require Import List Bool Arith.", "Require Import LV.Files.NpdScan LV.Files.SaveModel.", "Import ListNotations."]
+    rows = []
+    for c in cases:
+        lines = results.get(c["id"]) or []
+        ck = [l for l in lines if l.startswith("CKSAVE")]
+        sv = [l for l in lines if l.startswith("SAVE")]
+        sets = [l for l in lines if l.startswith("SET")]
+        if not ck or not sv or any(s.split()[1] != "0" for s in sets):
+            continue
+        o = c["obj"]
+        ents = [entry_term(e) for e in (c["format"].split(",") if c["format"] else [])]
+        if any(e is None for e in ents):
+            continue
+        eft = expected_filetype(c)
+        base = c["name"].rsplit("/", 1)[-1]
+        ext = base.rsplit(".", 1)[1].lower() if "." in base else ""
+        promote = ext == "ts" and c["setft"] == D.FT_TS1
+        ft = "TS1" if promote else eft
+        z = o.z0 or []
+        realpos = o.fz0 is None and all(x.imag == 0 and x.real > 0 for x in z)
+        equal = o.fz0 is None and all(x == z[0] for x in z)
+        term = "(Build_sobj %s %d %d %d %s %s %s %s %s %s)" % (
+            PT[o.type], o.rows, o.cols, len(o.freqs), "true" if o.fz0 is not None else "false",
+            "true" if realpos else "false", "true" if equal else "false", ft, "true" if promote else "false", coq_list(ents))
+        # field counts only make sense for the entries with resolved types
+        res = [e.replace("PUNDEF", PT[o.type]) for e in (ents or ["Build_entry %s RI" % PT[o.type]])]
+        body.append("Eval vm_compute in (cksave %s, line_fields (saver_fields %d %d) %s %d %s, line_fields (loader_fields %d) %s %d %s)."
+                    % (term, o.rows, o.cols, "true" if o.fz0 is not None else "false", o.cols, coq_list(res),
+                       o.cols, "true" if o.fz0 is not None else "false", o.cols, coq_list(res)))
+        rows.append((c, int(ck[0].split()[1]), sv[0]))
+        if len(rows) >= 400:
+            break
+    rc, cout, cerr = ctx.coq_eval("save_cases", "\n".join(body) + "\n", timeout=600)
+    if rc != 0:
+        ctx.obligation("tie:cksave_model", False, "model evaluation failed: " + cerr[-300:])
+        broken.append("save model cannot be evaluated: " + cerr[-300:])
+        return
+    blocks = re.findall(r"=\s*\((true|false),\s*(\d+),\s*(\d+)\)", cout)
+    bad_ck = bad_f = 0
+    for (c, ckrc, svline), (mck, msf, mlf) in zip(rows, blocks):
+        ctx.count(("save_model", c["id"]))
+        if (mck == "true") != (ckrc == 0):
+            bad_ck += 1
+            if bad_ck <= 3:
+                ctx.violation({"kind": "disagreement", "op": "vnadata_cksave", "class": "model_vs_c"},
+                              "vnadata_cksave returned %d, the model says %s (type %s %dx%d, format %s, file %s)"
+                              % (ckrc, mck, c["obj"].type, c["obj"].rows, c["obj"].cols, c["format"], c["name"]),
+                              {"case": {k: repr(v) for k, v in c.items() if k != "obj"}})
+        sv = svline.split(" # ")[0].split()
+        if int(sv[1]) == 0 and sv[6] != "-":
+            text = bytes.fromhex(sv[6]).decode("latin-1")
+            if text.startswith("#NPD"):
+                data = [l for l in text.split("\n") if l.strip() and not l.startswith("#")]
+                nf = len(data[0].split())
+                ctx.traces_validated += 1
+                if nf != int(msf) or int(msf) != int(mlf):
+                    bad_f += 1
+                    if bad_f <= 3:
+                        ctx.violation({"kind": "disagreement", "op": "npd_field_count", "class": "model_vs_c"},
+                                      "vnadata_fsave wrote %d fields per line, model saver %s, model loader %s (format %s, %d ports)"
+                                      % (nf, msf, mlf, c["format"], c["obj"].cols), {"file": text[:2000]})
+    ok = len(blocks) == len(rows)
+    ctx.obligation("tie:cksave_model", ok and bad_ck == 0, "%d of %d differ" % (bad_ck, len(rows)))
+    ctx.obligation("tie:npd_field_counts", ok and bad_f == 0, "%d differ" % bad_f)
+    ctx.extra["save_model_cases"] = len(rows)
